@@ -224,7 +224,7 @@ func (g *gen) malformed(good string) string {
 }
 
 func (prop) Generate(rng *core.Rand, tier string, emit func(string)) {
-	n := 15000
+	n := 12000
 	switch tier {
 	case "thorough":
 		n = 150000
@@ -249,6 +249,14 @@ func (prop) Generate(rng *core.Rand, tier string, emit func(string)) {
 // ---------------------------------------------------------------- one case
 
 func fail(class, what string) core.Failure { return core.Failure{Class: class, What: what} }
+
+func fnv(s string) uint32 {
+	h := uint32(2166136261)
+	for i := 0; i < len(s); i++ {
+		h = (h ^ uint32(s[i])) * 16777619
+	}
+	return h
+}
 
 type tcase struct {
 	rs      []*route
@@ -296,6 +304,12 @@ func evaluate(c tcase) (got observed, tags []string, fails []core.Failure, err e
 		}
 	}
 
+	// the two-run relations cost a provisioning each: applied to a fixed third of the cases
+	// (chosen by a hash of the case, so a replayed case is always treated the same way)
+	if fnv(c.line())%3 != 0 {
+		return
+	}
+	tags = append(tags, "two-run-relations-checked")
 	// ---- oracle 2 (two-run relation): nesting follows the same rules — wrapping the whole
 	// primary route list into one matcher-less subroute must not change anything observable
 	wrapped := []*route{{hs: []*handler{{kind: 's', routes: rs}}}}
